@@ -877,15 +877,32 @@ Proof.
   destruct (Defrag.find_id (bk_id b) bl'); [left; reflexivity|right; exact Hb].
 Qed.
 
+Lemma commit_attempt_K w lr slot dst : KR w (fst (commit_attempt c w lr slot dst)).
+Proof.
+  unfold commit_attempt. destruct (get_block w lr dst) as [b|] eqn:Hgb; [|apply KR_refl].
+  destruct (sm_sub (v_m w) (bk_mem b) (bk_sm b)) as (m1 & s1).
+  destruct (if a_persist _ then sm_map c m1 (bk_mem b) s1 else (m1, s1, OK tt)) as ((m2 & s2) & mr). cbn [fst].
+  eapply KR_trans; [apply KR_set_m|]. eapply KR_put_sm. unfold get_block. rewrite get_blist_set_m. exact Hgb.
+Qed.
+
+Lemma replay_K log : forall w lr, KR w (fst (replay_log c w lr log)).
+Proof.
+  induction log as [|[slot dst|mv] tl IH]; intros w lr; cbn [replay_log]; [apply KR_refl| |].
+  - pose proof (commit_attempt_K w lr slot dst) as H. destruct (commit_attempt c w lr slot dst) as (w1 & r). cbn [fst] in H.
+    destruct r as [[]|code| |]; cbn [fst]; try exact H. eapply KR_trans; [exact H|apply IH].
+  - pose proof (commit_move_K w lr mv) as H. destruct (commit_move c w lr mv) as (w1 & r). cbn [fst] in H.
+    destruct r as [[]|code| |]; cbn [fst]; try exact H. eapply KR_trans; [exact H|apply IH].
+Qed.
+
 Lemma collect_list_K v dc p : KR v (fst (collect_list c v dc p)).
 Proof.
   unfold collect_list. destruct (project v (dc_lr dc)) as [st|] eqn:Ep; [|apply KR_refl].
   destruct (get_blist v (dc_lr dc)) as [l|] eqn:Hg; [|apply KR_refl].
   assert (Ht : forallb (fun b => is_tlsf (bk_meta b)) (bl_blocks l) = true).
   { unfold project in Ep. rewrite Hg in Ep. destruct (project_blocks (bl_blocks l)) as [bl|] eqn:E; [|discriminate]. eapply project_blocks_some_tlsf; eauto. }
-  destruct (Defrag.collect_moves st (dc_ctx dc) p) as (cs & wr). destruct wr as [| |why]; [| |apply KR_refl].
-  all: match goal with |- context [commit_moves c ?w ?lr0 ?ms] =>
-         assert (H1 : KR v w); [|pose proof (commit_moves_K ms w lr0) as H2; destruct (commit_moves c w lr0 ms) as (v2 & r); cbn [fst] in H2;
+  destruct (Defrag.collect_moves_f vam (att_commit c (dc_lr dc)) st (dc_ctx dc) p v) as (((cs & env) & log) & wr). destruct wr as [| |why]; [| |apply KR_refl].
+  all: match goal with |- context [replay_log c ?w ?lr0 ?ms] =>
+         assert (H1 : KR v w); [|pose proof (replay_K ms w lr0) as H2; destruct (replay_log c w lr0 ms) as (v2 & r); cbn [fst] in H2;
                                   assert (K2 : KR v v2) by (eapply KR_trans; eauto); destruct r as [[]|code| |]; exact K2] end.
   all: apply (KR_set_blist v (dc_lr dc) l _ Hg); [reflexivity|]; intros K b' Hb'; cbn in Hb';
        destruct (unproject_kind _ _ _ Hb') as [Hk|Hin]; [|apply (k_kind _ K _ _ _ Hg Hin)];
